@@ -79,10 +79,12 @@ def models(draw, with_groups=True, with_systems=True, with_offset=True, max_unit
     systems = []
     if with_systems and draw(st.booleans()):
         # 'new' rule form: a unit that is a pure power-1 multiple of one base unit
-        cands = [u for u in units if len(u["refs"]) == 1 and list(u["refs"].values()) == [1] and list(u["refs"])[0] in [b[0] for b in base] and not u["prefixed_ref"]]
+        # (also a unit that is a power 2 or 3 of one base unit, e.g. an area unit replacing the length unit: implicit rule form only)
+        cands = [u for u in units if len(u["refs"]) == 1 and list(u["refs"].values())[0] in (1, 2, 3) and list(u["refs"])[0] in [b[0] for b in base] and not u["prefixed_ref"]]
         if cands:
             u = draw(st.sampled_from(cands))
-            systems.append({"name": SYSTEMS[0], "using": [g["name"] for g in groups[:1]], "rules": [[u["name"], None if draw(st.booleans()) else list(u["refs"])[0]]]})
+            implicit = draw(st.booleans()) or list(u["refs"].values())[0] != 1
+            systems.append({"name": SYSTEMS[0], "using": [g["name"] for g in groups[:1]], "rules": [[u["name"], None if implicit else list(u["refs"])[0]]]})
     defaults = None
     if groups and systems and draw(st.integers(0, 2)) == 0:
         # units written outside any @group block then belong to the default group (here the group at the bottom of the 'using' chains)
